@@ -76,6 +76,7 @@ func runC09(c *engine.Ctx, tier string) {
 		transientReturned(c, "C09.5/"+strings.TrimPrefix(rel, "pkg/controller/v2/"), rel)
 	}
 	controllerWiring(c)
+	managerWiring(c)
 }
 
 // returnsNoWake matches a root return that carries neither a re-queue nor an error.
@@ -360,6 +361,101 @@ func controllerWiring(c *engine.Ctx) {
 		}
 		if reconcilers != 1 {
 			o.Fail(&engine.Violation{Key: rel + ".NewController|reconciler", Pos: c.P.Pos(ctor.Decl.Pos()), Func: ctor.Name(), Msg: fmt.Sprintf("NewController registers %d reconcilers, not one", reconcilers)})
+		}
+	}
+}
+
+// managerWiring: C09.8. The manager starts every controller and reports a controller that did not start.
+func managerWiring(c *engine.Ctx) {
+	o := c.Custom("C09.8", "K-table(manager wiring)", "Manager.Start reaches NewController of the node, connection, target, mastership, configuration, proposal and transaction controllers, each start helper returns the error of Controller.Start, each helper's error is tested and returned by Start, and every store constructor is called once (one instance shared by the controllers and the northbound server)",
+		"a controller that is not started (or whose failed start is ignored) leaves every record that waits for it stranded")
+	defer o.Done(7)
+	funcs, sites := c.P.Reach("manager.Manager.Start")
+	_ = funcs
+	need := map[string]bool{}
+	for _, p := range []string{"controller/node", "controller/connection", "controller/target", "controller/v2/mastership", "controller/v2/configuration", "controller/v2/proposal", "controller/v2/transaction"} {
+		need[p+".NewController"] = false
+	}
+	storeCtors := map[string]int{}
+	for _, cs := range sites {
+		if _, ok := need[cs.Callee]; ok {
+			need[cs.Callee] = true
+			o.Site(cs.Pos + " " + cs.Func + " → " + cs.Callee)
+		}
+		if strings.HasSuffix(cs.Callee, ".NewAtomixStore") && cs.Func == "manager.Manager.Start" {
+			storeCtors[cs.Callee]++
+		}
+	}
+	for callee, ok := range need {
+		o.Eval(1)
+		if !ok {
+			o.Fail(&engine.Violation{Key: "manager.Manager.Start|" + callee + " not reached", Pos: "pkg/manager/manager.go", Func: "manager.Manager.Start",
+				Msg: callee + " is not reachable from Manager.Start: that controller is never started"})
+		}
+	}
+	for ctor, n := range storeCtors {
+		o.Eval(1)
+		if n != 1 {
+			o.Fail(&engine.Violation{Key: "manager.Manager.Start|" + ctor + " called " + fmt.Sprint(n) + " times", Pos: "pkg/manager/manager.go", Func: "manager.Manager.Start",
+				Msg: ctor + " is called more than once: controllers and handlers would not share one store instance (watch registries are per instance)"})
+		}
+	}
+	pkg := c.P.Pkg("pkg/manager")
+	if pkg == nil {
+		o.Undecided("pkg/manager", "package not loaded")
+		return
+	}
+	for _, fi := range c.P.FuncsOf(pkg) {
+		name := fi.Decl.Name.Name
+		switch {
+		case strings.HasPrefix(name, "start") && strings.HasSuffix(name, "Controller"):
+			// returns x.Start()
+			ok := false
+			ast.Inspect(fi.Decl.Body, func(n ast.Node) bool {
+				if r, isRet := n.(*ast.ReturnStmt); isRet && len(r.Results) == 1 {
+					if call, isCall := r.Results[0].(*ast.CallExpr); isCall {
+						if sel, isSel := call.Fun.(*ast.SelectorExpr); isSel && sel.Sel.Name == "Start" {
+							ok = true
+						}
+					}
+				}
+				return true
+			})
+			o.Eval(1)
+			if !ok {
+				o.Fail(&engine.Violation{Key: fi.Name() + "|does not return Controller.Start()", Pos: c.P.Pos(fi.Decl.Pos()), Func: fi.Name(),
+					Msg: "the start helper does not return the error of Controller.Start(): the controller is built but not started, or a failed start is hidden"})
+			}
+		case name == "Start":
+			// every err = m.startX(...) is followed by if err != nil { return err }
+			body := fi.Decl.Body.List
+			for i, st := range body {
+				as, ok := st.(*ast.AssignStmt)
+				if !ok || len(as.Rhs) != 1 {
+					continue
+				}
+				call, ok := as.Rhs[0].(*ast.CallExpr)
+				if !ok {
+					continue
+				}
+				sel, ok := call.Fun.(*ast.SelectorExpr)
+				if !ok || !strings.HasPrefix(sel.Sel.Name, "start") {
+					continue
+				}
+				o.Eval(1)
+				tested := false
+				if i+1 < len(body) {
+					if ifs, ok := body[i+1].(*ast.IfStmt); ok && types.ExprString(ifs.Cond) == "err != nil" && len(ifs.Body.List) == 1 {
+						if r, ok := ifs.Body.List[0].(*ast.ReturnStmt); ok && len(r.Results) == 1 && types.ExprString(r.Results[0]) == "err" {
+							tested = true
+						}
+					}
+				}
+				if !tested {
+					o.Fail(&engine.Violation{Key: "manager.Manager.Start|error of " + sel.Sel.Name + " not returned", Pos: c.P.Pos(as.Pos()), Func: fi.Name(),
+						Msg: "the error of " + sel.Sel.Name + " is not tested and returned: the manager reports 'started' without that controller"})
+				}
+			}
 		}
 	}
 }
